@@ -79,6 +79,8 @@ enum Op {
     Advance(u64),
     /// `cleanup_expired()`: physically drops expired entries; nothing observable may change
     Cleanup,
+    /// `restore` of an id that was never handed out (or of a retired checkpoint): must fail and change nothing
+    RestoreUnknown,
 }
 
 #[derive(Clone, Debug)]
@@ -301,6 +303,11 @@ fn gen_hist(s: &mut Src, ctx: &mut Ctx, fl: &mut GenFlags) -> Case {
         let pos = s.below(ops.len() + 1);
         ops.insert(pos, Op::Cleanup);
     }
+    // one in four tries to restore an id that does not exist
+    if s.chance(1, 4) {
+        let pos = s.below(ops.len() + 1);
+        ops.insert(pos, Op::RestoreUnknown);
+    }
     // Wide scale, drawn after everything else (byte-encoded cases written before this existed decode as before): one
     // case in four multiplies every TTL and every clock advance by K (a second, 1001 ms, a minute, an hour, a prime
     // near 10^6) and then moves each advance by -1, 0 or +1 ms, so that checkpoints and restores fall on, just before
@@ -388,6 +395,7 @@ fn fmt_case(c: &Case) -> String {
             Op::Restore(i) => format!("restore(#{} mod n, 0=oldest)", i),
             Op::Advance(d) => format!("advance({}ms)", d),
             Op::Cleanup => "cleanup_expired".to_string(),
+            Op::RestoreUnknown => "restore(unknown id)".to_string(),
         })
         .collect();
     format!(
@@ -718,6 +726,23 @@ impl Exec {
                 self.checkpoint(i, ctx)?;
             }
             Op::Restore(sel) => self.restore(i, *sel, ctx)?,
+            Op::RestoreUnknown => {
+                let before = observe(&self.store, &self.keys)?;
+                let listed_before: Vec<String> = self.store.list_checkpoints().iter().map(|c| c.id.clone()).collect();
+                let r = self.store.restore("checkpoint_0_never_handed_out");
+                let after = observe(&self.store, &self.keys)?;
+                if r.is_ok() {
+                    return Err(Verdict::fail("restore-unknown-id-ok", format!("step {}: restore of an id that was never handed out returned Ok", i)));
+                }
+                let listed_after: Vec<String> = self.store.list_checkpoints().iter().map(|c| c.id.clone()).collect();
+                if !same_obs(&before, &after) || listed_before != listed_after {
+                    return Err(Verdict::fail(
+                        "failed-restore-changed-state",
+                        format!("step {}: the failed restore changed the store from {} to {} (checkpoints listed {:?} -> {:?})", i, fmt_obs(&before), fmt_obs(&after), listed_before, listed_after),
+                    ));
+                }
+                ctx.label("restore-of-unknown-id");
+            }
             Op::Cleanup => {
                 let before = observe(&self.store, &self.keys)?;
                 let _ = self.store.cleanup_expired();
